@@ -32,6 +32,10 @@ class CFG:
         for b in raw["blocks"]:
             if b.get("tk") == "CXXTryStmt":
                 self.extra_entry.add(b["id"])
+        self.cond_kind = {}
+        for b in raw["blocks"]:
+            if b.get("cond") is not None:
+                self.cond_kind[b["cond"]] = b.get("tk")
         self.pred = {}
         for b, ss in self.succ.items():
             for s in ss:
@@ -81,6 +85,16 @@ class CFG:
             if b.get("cond") is not None and len(b["s"]) == 2 and b.get("tk") not in ("SwitchStmt", "CXXTryStmt"):
                 if b["s"][0] != b["s"][1]:
                     yield bid, b["cond"]
+
+    def real_guards(self, node):
+        """guards() without loop-exit edges (a loop's false edge is taken by every
+        terminating execution, so it is not a condition on reaching the code after it)."""
+        out = []
+        for cond, pol in self.guards(node):
+            if not pol and self.cond_kind.get(cond) in ("ForStmt", "WhileStmt", "DoStmt", "CXXForRangeStmt"):
+                continue
+            out.append((cond, pol))
+        return out
 
     def guards(self, node):
         """Edge-dominating guards of a node: list of (cond node id, polarity) such
